@@ -154,6 +154,17 @@ def step (s : St) (w : List String) : St × String :=
       | .ok es => (s, line s ("elems=" ++ fmtElems es) (toString cnt) [(specR, specC s)])
       | x => (s, line s (resName x) (toString cnt) [(specR, specC s)])
     | _, _, _ => (s, "bad-op")
+  | ["g", "splitn", txt, sp, n] =>
+    match parseText txt, parseChar sp, n.toNat? with
+    | some txt, some sp, some n =>
+      if n > txt.length then (s, "bad-op") else
+      -- assign character 0 cannot occur inside the range: the components of the first n characters
+      let specR := "elems=" ++ fmtElems (PathMap.splitOn sp (txt.take n))
+      let ps := pathSetN sp 0 txt n
+      match elems ps.1 (txt.length + 2) with
+      | .ok es => (s, line s ("elems=" ++ fmtElems es) (toString ps.2) [(specR, specC s)])
+      | x => (s, line s (resName x) (toString ps.2) [(specR, specC s)])
+    | _, _, _ => (s, "bad-op")
   | ["g", "last", txt, sp, skip] =>
     match parseText txt, parseChar sp, skip.toNat? with
     | some txt, some sp, some skip =>
